@@ -73,9 +73,9 @@ ARCH = """
 """
 
 
-def gen_map(rs):
+def gen_map(rs, small=False):
     """-> {"words": W, "entries": [entry...]}; entry kinds: mem, memu(default), fields, cnt, file(2 words), array(n words)"""
-    W = rs.choice([4, 5, 6, 8, 11, 12, 16])
+    W = rs.choice([2, 3, 4, 5, 8] if small else [4, 5, 6, 8, 11, 12, 16])
     free = list(range(W))
     entries = []
     nreg = rs.range(2, min(W, 7))
@@ -127,8 +127,9 @@ def gen_map(rs):
     return {"words": W, "entries": sorted(entries, key=lambda x: x["word"])}
 
 
-def render_src(m):
-    L = [HEAD]
+def render_map(m, tag=""):
+    """-> source lines defining the register classes of one map and its root class Root<tag>"""
+    L = []
     root = []
     for i, e in enumerate(m["entries"]):
         off = e["word"] * 4
@@ -138,15 +139,15 @@ def render_src(m):
         elif k == "memu":
             root.append(f"    r{i}: reg32.MemUWord[{off:#x}]")
         elif k == "fields":
-            L.append(f"class F{i}(reg32.Register):")
+            L.append(f"class F{tag}_{i}(reg32.Register):")
             for j, (hi, lo, dflt, ft) in enumerate(e["fields"]):
                 rng_ = f"{hi}:{lo}" if hi != lo else f"{hi}:{lo}"
                 L.append(f"    f{j}: reg32.{ft}[{rng_}, {dflt}]")
             L.append("")
-            root.append(f"    r{i}: F{i}[{off:#x}]")
+            root.append(f"    r{i}: F{tag}_{i}[{off:#x}]")
         elif k == "cnt":
             L += [
-                f"class C{i}(reg32.Register):",
+                f"class C{tag}_{i}(reg32.Register):",
                 "    data: reg32.MemField[15:0, Null]",
                 "    rd_cnt: reg32.UField[23:16, Null]",
                 "    wr_cnt: reg32.UField[31:24, Null]",
@@ -159,23 +160,23 @@ def render_src(m):
                 "            self.wr_cnt <<= self.wr_cnt.val() + 1",
                 "",
             ]
-            root.append(f"    r{i}: C{i}[{off:#x}]")
+            root.append(f"    r{i}: C{tag}_{i}[{off:#x}]")
         elif k == "file":
-            L += [f"class G{i}(reg32.RegFile, word_count=2):", "    m0: reg32.MemWord[0x0]", "    m1: reg32.MemUWord[0x4]", ""]
-            root.append(f"    r{i}: G{i}[{off:#x}]")
+            L += [f"class G{tag}_{i}(reg32.RegFile, word_count=2):", "    m0: reg32.MemWord[0x0]", "    m1: reg32.MemUWord[0x4]", ""]
+            root.append(f"    r{i}: G{tag}_{i}[{off:#x}]")
         elif k == "array":
             root.append(f"    r{i}: reg32.Array[reg32.MemWord, {off}:{off + 4 * e['n']}:4]")
         elif k == "memory":
             if e["decl"] == "class":
-                L += [f"class M{i}(reg32.Memory, word_count={e['n']}):", "    pass", ""]
-                root.append(f"    r{i}: M{i}[{off:#x}]")
+                L += [f"class M{tag}_{i}(reg32.Memory, word_count={e['n']}):", "    pass", ""]
+                root.append(f"    r{i}: M{tag}_{i}[{off:#x}]")
             else:
                 root.append(f"    r{i}: reg32.Memory[{off:#x}:{off + 4 * e['n']:#x}]")
         elif k == "range":
             fn = "_on_read_relative_" if e["relative"] else "_on_read_"
-            L += [f"class A{i}(reg32.AddrRange, word_count={e['n']}):", f"    def {fn}(self, addr):", "        return std.leftpad(addr, 32).bitvector", ""]
-            root.append(f"    r{i}: A{i}[{off:#x}]")
-    L.append(f"class Root(reg32.AddrMap, word_count={m['words']}):")
+            L += [f"class A{tag}_{i}(reg32.AddrRange, word_count={e['n']}):", f"    def {fn}(self, addr):", "        return std.leftpad(addr, 32).bitvector", ""]
+            root.append(f"    r{i}: A{tag}_{i}[{off:#x}]")
+    L.append(f"class Root{tag}(reg32.AddrMap, word_count={m['words']}):")
     L += root
     cfg = [f"        self.r{i}._config_({e['default']})" for i, e in enumerate(m["entries"]) if e["kind"] == "memu"]
     for i, e in enumerate(m["entries"]):
@@ -184,8 +185,57 @@ def render_src(m):
             cfg.append(f"        self.r{i}._config_(initial={init}, noreset={e['noreset']}, mask_mode=reg32.Memory.MaskMode.{e['mode']}, inline={e['inline']})")
     if cfg:
         L += ["    def _config_(self):"] + cfg
-    L += ["", "class E(cohdl.Entity):", PORTS, ARCH]
-    return "\n".join(L) + "\n"
+    L.append("")
+    return L
+
+
+def render_src(m):
+    if "slaves" in m:
+        L = [HEAD, "from cohdl.std.axi.axi4_light.interconnect import Interconnect", ""]
+        con = ["        ic = Interconnect(axi_con)"]
+        for j, (off, size, mj) in enumerate(m["slaves"]):
+            L += render_map(mj, f"S{j}")
+        # reserved in seeded order (the order of reserve() is the order of the slaves inside the interconnect)
+        for j in m["connect_order"]:
+            off, size, _ = m["slaves"][j]
+            con.append(f"        s{j} = ic.reserve({off:#x}, {size:#x}, prefix='s{j}_')")
+        for j in m["connect_order"]:
+            con.append(f"        s{j}.connect_addr_map(RootS{j}())")
+        arch = ARCH.replace("        axi_con.connect_addr_map(Root())\n", "\n".join(con) + "\n")
+        return "\n".join(L + ["class E(cohdl.Entity):", PORTS, arch]) + "\n"
+    return "\n".join([HEAD] + render_map(m) + ["class E(cohdl.Entity):", PORTS, ARCH]) + "\n"
+
+
+def gen_interconnect(rs):
+    """2-3 slaves behind std.axi.axi4_light.interconnect.Interconnect, each with its own seeded map in a power-of-two window
+    (size-aligned, optionally with unmapped gaps between the windows, which the interconnect answers with DECERR).
+    -> combined map (entries shifted to global word numbers) + "slaves": [(offset, size, map)]"""
+    slaves = []
+    cursor = 0
+    entries = []
+    for j in range(rs.range(2, 3)):
+        mj = gen_map(rs, small=True)
+        size = 4
+        while size < 4 * mj["words"]:
+            size *= 2
+        if rs.below(4) == 0:
+            size *= 2
+        cursor = (cursor + size - 1) // size * size
+        if rs.below(3) == 0:
+            cursor += size
+        slaves.append((cursor, size, mj))
+        for e in mj["entries"]:
+            entries.append(dict(e, word=e["word"] + cursor // 4))
+        cursor += size
+    order = rs.sample(list(range(len(slaves))), len(slaves))
+    return {"words": cursor // 4, "entries": entries, "slaves": slaves, "connect_order": order}
+
+
+def decerr_of(m):
+    if "slaves" not in m:
+        return None
+    return lambda a: not any(off <= a < off + size for off, size, _ in m["slaves"])
+
 
 
 class Model:
@@ -291,7 +341,7 @@ def gen_traffic(rs, m, n):
     return ops
 
 
-def simulate(m, design, ops, seed, idx, pipelined, reset_at=None):
+def simulate(m, design, ops, seed, idx, pipelined, reset_at=None, decerr=None):
     """clock-by-clock master + monitors + model"""
     d = dutm.Dut(design, rng.derive(seed, "C20", "order", idx), "c20", offsets=False)
     rs = rng.Stream(seed, "C20", "agent", idx)
@@ -424,6 +474,8 @@ def simulate(m, design, ops, seed, idx, pipelined, reset_at=None):
                 st["partial_strobe"] += 1
             if (t["addr"] >> 2) not in model.words:
                 st["unmapped"] += 1
+            if decerr and decerr(t["addr"]):
+                st["decerr_expected"] = st.get("decerr_expected", 0) + 1
             wi += 1
             aw_sent = w_sent = False
             aw_wait = w_wait = None
@@ -440,7 +492,7 @@ def simulate(m, design, ops, seed, idx, pipelined, reset_at=None):
             if not pending_b:
                 return "protocol", {"rule": "write-response-without-request", "clock": k}, st, d
             t = pending_b.pop(0)
-            if pre["axi_bresp"] != 0:
+            if pre["axi_bresp"] != (3 if decerr and decerr(t["addr"]) else 0):
                 return "protocol", {"rule": "bresp-not-okay", "clock": k, "bresp": pre["axi_bresp"], "addr": t["addr"]}, st, d
             model.write(t["addr"], t["data"], t["strb"])
             busy_w[t["addr"]] -= 1
@@ -459,6 +511,8 @@ def simulate(m, design, ops, seed, idx, pipelined, reset_at=None):
             pending_r.append(t)
             if (t["addr"] >> 2) not in model.words:
                 st["unmapped"] += 1
+            if decerr and decerr(t["addr"]):
+                st["decerr_expected"] = st.get("decerr_expected", 0) + 1
             ri += 1
             ar_wait = None
             r_gap = t["gap"]
@@ -468,7 +522,7 @@ def simulate(m, design, ops, seed, idx, pipelined, reset_at=None):
             if not pending_r:
                 return "protocol", {"rule": "read-response-without-request", "clock": k}, st, d
             t = pending_r.pop(0)
-            if pre["axi_rresp"] != 0:
+            if pre["axi_rresp"] != (3 if decerr and decerr(t["addr"]) else 0):
                 return "protocol", {"rule": "rresp-not-okay", "clock": k, "rresp": pre["axi_rresp"], "addr": t["addr"]}, st, d
             if t["addr"] in busy_w or t.get("_overlap"):
                 st["reads_overlapping_a_write_not_value_checked"] = st.get("reads_overlapping_a_write_not_value_checked", 0) + 1
@@ -508,7 +562,7 @@ def simulate(m, design, ops, seed, idx, pipelined, reset_at=None):
 
 def evaluate(seed, idx, tier):
     rs = rng.Stream(seed, "C20", "map", idx // 4)
-    m = gen_map(rs)
+    m = gen_interconnect(rs) if rng.Stream(seed, "C20", "topology", idx // 4).below(4) == 0 else gen_map(rs)
     src = render_src(m)
     key = repr(m)
     try:
@@ -521,7 +575,7 @@ def evaluate(seed, idx, tier):
     trs = rng.Stream(seed, "C20", "traffic", idx)
     ops = gen_traffic(trs, m, trs.range(20, 50 if tier == "quick" else 120))
     pipelined = trs.below(2) == 1
-    out = simulate(m, design, ops, seed, idx, pipelined)
+    out = simulate(m, design, ops, seed, idx, pipelined, decerr=decerr_of(m))
     st, det, stats, d = out
     stats = dict(stats, **{k: v for k, v in d.stats().items() if k in ("deltas", "reorders")}, pipelined=int(pipelined), transactions=len(ops))
     return "accepted", (None if st == "ok" else st + ":" + str(det.get("rule", ""))), det, m, stats
@@ -534,7 +588,7 @@ def run_one(seed, idx, tier):
             return {"idx": idx, "status": "skipped", "reason": "illegal-vhdl:" + str(out[1].get("rule")) + ":" + str(out[1].get("msg"))[:100], "shape": str(idx)}
         return {"idx": idx, "status": "violation", "vclass": out[0], "detail": out[1], "payload": {"seed": seed, "idx": idx, "tier": tier}, "shape": str(idx)}
     outcome, vclass, det, m, stats = out
-    res = {"idx": idx, "shape": hashlib.sha256(repr(m).encode()).hexdigest()[:12], "outcome": outcome, "kinds": sorted({e["kind"] for e in m["entries"]}), "words": m["words"]}
+    res = {"idx": idx, "shape": hashlib.sha256(repr(m).encode()).hexdigest()[:12], "outcome": outcome, "kinds": sorted({e["kind"] for e in m["entries"]}), "words": m["words"], "topology": f"interconnect-{len(m['slaves'])}-slaves" if "slaves" in m else "direct"}
     if stats:
         res["stats"] = stats
     if outcome == "rejected":
@@ -569,6 +623,8 @@ ASSUMPTIONS = [
     "Memory of 2-8 words with the four mask modes / inline or separate access processes / initial contents, AddrRange with an absolute or relative read hook; objects start at any word offset); "
     "a Memory in mask mode IGNORE writes all four bytes whatever the strobes say (documented behaviour of that mode)",
     "bounded response: 24 clocks while the master holds ready high",
+    "a quarter of the maps sit behind std.axi.axi4_light.interconnect.Interconnect (2-3 slaves in size-aligned power-of-two windows, gaps between them): "
+    "accesses inside a window behave as without the interconnect (OKAY), accesses outside every window are answered once with DECERR and change nothing",
 ]
 
 
@@ -602,6 +658,8 @@ def evidence(results, tier):
         "accepted_runs": len(acc),
         "not_explored": rej,
         "register_kinds": kinds,
+        "topology": {t: len([r for r in acc if r["topology"] == t]) for t in sorted({r["topology"] for r in acc})},
+        "accesses_outside_every_slave_window(DECERR expected)": agg.get("decerr_expected", 0),
         "simulated_clocks": agg.get("clocks", 0),
         "handshakes": {k: agg.get(k, 0) for k in ("aw_hs", "w_hs", "b_hs", "ar_hs", "r_hs")},
         "schedule_reach": {"aw_before_w": agg.get("aw_first", 0), "w_before_aw": agg.get("w_first", 0), "aw_and_w_same_clock": agg.get("same_clock", 0), "next_write_accepted_while_b_outstanding": agg.get("pipelined_writes", 0), "clocks_bvalid_waited_for_bready": agg.get("b_waited", 0), "clocks_rvalid_waited_for_rready": agg.get("r_waited", 0), "unmapped_or_hole_accesses": agg.get("unmapped", 0), "partial_strobe_writes": agg.get("partial_strobe", 0)},
